@@ -142,13 +142,14 @@ async def drive(coro_factory, schedule, expected_pending):
     try:
         for step, label in enumerate(schedule):
             await quiesce()
-            real = set(G.pending)
+            real = {l for l, f in G.pending.items() if not f.done()}     # a gate cancelled by the code is no longer pending
             if real != set(expected_pending[step]):
                 raise ConformanceFailure(step, real, set(expected_pending[step]), schedule)
             G.release(label)
         await quiesce()
-        if G.pending or not task.done():
-            raise ConformanceFailure(len(schedule), set(G.pending), set(), schedule)
+        left = {l for l, f in G.pending.items() if not f.done()}
+        if left or not task.done():
+            raise ConformanceFailure(len(schedule), left, set(), schedule)
         try:
             return "ok", task.result()
         except BaseException as e:  # pylint:disable=broad-except
